@@ -1353,10 +1353,15 @@ impl ByteCodeGenerator {
                             };
                             let tmp_idx_ref = Arc::new(mir::Value::None);
                             let idx = this.vregister.add_newvalue(&tmp_idx_ref);
-                            bytecodes_dst.push(VmInstruction::MoveImmF(
-                                idx,
-                                HFloat::try_from(i as f64).unwrap(),
-                            ));
+                            // An index that half precision cannot represent exactly (2049 is the
+                            // first one) is loaded from the constant table, like a float literal.
+                            bytecodes_dst.push(match HFloat::try_from(i as f64) {
+                                Ok(half_f) => VmInstruction::MoveImmF(idx, half_f),
+                                Err(()) => VmInstruction::MoveConst(
+                                    idx,
+                                    add_const(gen_raw_float(&(i as f64))),
+                                ),
+                            });
                             let idx = this.find(&tmp_idx_ref);
                             bytecodes_dst.push(VmInstruction::SetArrayElem(dst_reg, idx, src));
                         }
